@@ -15,7 +15,7 @@ from ..kernel import Engine, call, exc_is
 
 CLASSES = ('Bits', 'BitArray', 'ConstBitStream', 'BitStream')
 WRITE_SRC = ('mem', 'file', 'filelen', 'fileoff', 'slice', 'bytesio')
-READ_ROUTES = ('bytes', 'bytearray', 'memoryview', 'bytesio', 'filename', 'handle', 'bitarray')
+READ_ROUTES = ('bytes', 'bytearray', 'memoryview', 'bytesio', 'filename', 'handle', 'bitarray', 'mv_cast_H', 'mv_cast_I', 'array_H', 'bytesio_pos', 'bytesio_reused')
 FAULT_KINDS = ('error', 'torn', 'closed')
 
 
@@ -417,6 +417,24 @@ class EIO(Engine):
                 st, x = call(C, bytes=memoryview(data), **kw) if kw else call(C, memoryview(data))
             elif route == 'bytesio':
                 st, x = call(C, io.BytesIO(data), **kw)
+            elif route in ('mv_cast_H', 'mv_cast_I', 'array_H'):
+                # a buffer whose items are wider than a byte: offset and length still count bits of its bytes
+                isz = 4 if route.endswith('I') else 2
+                if len(data) % isz or not data:
+                    return {'skip': 'size is not a multiple of the item size'}, []
+                buf = memoryview(data).cast(route[-1]) if route.startswith('mv') else array.array('H', data)
+                st, x = call(C, bytes=buf, **kw) if (kw or route == 'array_H') else call(C, buf)
+            elif route == 'bytesio_pos':
+                # the stream position of a BytesIO is not part of its content (the whole buffer is the source)
+                bio = io.BytesIO(data)
+                bio.read((base + 3) % (len(data) + 1))
+                st, x = call(C, bio, **kw)
+            elif route == 'bytesio_reused':
+                bio = io.BytesIO()
+                bio.write(data)                       # left positioned at its end, as after tofile()
+                st, x = call(C, bio, **kw)
+                if st == 'ok':
+                    st, x = call(C, bio, **kw)        # and used a second time
             elif route == 'bitarray':
                 import bitarray
                 ba = bitarray.bitarray(allbits)
@@ -475,6 +493,17 @@ class EIO(Engine):
             if raw != bits_to_bytes(bits):
                 incs.append(self.inc('roundtrip|file-content-mismatch', bits=bits[:100], raw=raw.hex()[:100]))
                 continue
+            # straight through a BytesIO: tofile() leaves it positioned at its end, the reader must not care
+            bio = io.BytesIO()
+            st, v = call(src.tofile, bio)
+            if st != 'ok' or bio.getvalue() != raw:
+                incs.append(self.inc('roundtrip|tofile-to-bytesio|content-mismatch', exc=kernel.canon(v) if st != 'ok' else None))
+            else:
+                st, x = call(C, bio, length=len(bits)) if cut_ else call(C, bio)
+                if st != 'ok':
+                    incs.append(self.inc('roundtrip|read-back=bytesio-as-written|raised', exc=kernel.canon(x)))
+                elif call(lambda: x.bin) != ('ok', bits):
+                    incs.append(self.inc('roundtrip|read-back=bytesio-as-written|content-mismatch', want=bits[:100], got=kernel.canon(call(lambda: x.bin)[1])))
             for how in ('filename', 'handle', 'bytes', 'bytesio'):
                 hh = None
                 try:
